@@ -171,7 +171,11 @@ type errorExtra struct {
 // When debug is false, stack traces and file paths are omitted to avoid leaking
 // implementation details to clients.
 func buildErrorExtra(err error, debug bool) string {
-	errType := fmt.Sprintf("%T", err)
+	// Anything that is not one of the typed errors below — a plain Go error,
+	// a wrapped one, a cap refusal built with fmt.Errorf — is a RuntimeError
+	// on the wire. A "%T" fallback would put a Go-internal type name such as
+	// "*errors.errorString" into a cross-language error payload.
+	errType := "RuntimeError"
 
 	// Prefer the wire-stable class name for typed errors.
 	switch e := err.(type) {
